@@ -3,6 +3,7 @@ package rules
 import (
 	"fmt"
 	"go/ast"
+	"go/token"
 	"go/types"
 	"sort"
 	"strings"
@@ -819,7 +820,28 @@ func (c *Ctx) cacheObjectsUnmodified() {
 	// (b) observed pods in the reconcile function
 	if r := c.ReconcileRoles(); r != nil {
 		info := r.FI.Pkg.TypesInfo
-		isObs := func(e ast.Expr) bool {
+		var isObs func(e ast.Expr) bool
+		isObs = func(e ast.Expr) bool {
+			switch x := ast.Unparen(e).(type) {
+			case *ast.Ident:
+				// an alias: v := pods[i]
+				if d := defRHS(r.FI, info, x); d != nil {
+					if _, isIdent := ast.Unparen(d).(*ast.Ident); !isIdent {
+						return isObs(d)
+					}
+				}
+				return false
+			case *ast.UnaryExpr:
+				// &v with v := *pods[i]: a shallow copy shares the labels, annotations and volumes of the cached object
+				if x.Op == token.AND {
+					if id, isID := ast.Unparen(x.X).(*ast.Ident); isID {
+						if st, isStar := ast.Unparen(defRHS(r.FI, info, id)).(*ast.StarExpr); isStar {
+							return isObs(st.X)
+						}
+					}
+				}
+				return false
+			}
 			ix, ok := ast.Unparen(e).(*ast.IndexExpr)
 			if !ok {
 				return false
